@@ -107,32 +107,40 @@ list switches nested structs on and names no template.  The backend's CodeUtils 
 flags the scratch run of checkOptions left in the process-wide style objects. -/
 theorem cmdline_transparent (as : List Bytes) (hne : as ≠ []) (hc : ∀ a ∈ as, (44 : Nat) ∉ a) :
     cmdline env cmdEnv (joinComma as) =
-      handleFrom env { init env with styleFlags := (probe env as).styleFlags } (as ++ appended as) := by
+      if (handle env as).isNone then none    -- the scratch run of checkOptions rejects the list: nothing is generated
+      else handleFrom env { init env with styleFlags := (probe env as).styleFlags } (as ++ appended as) := by
   have hs := splitComma_joinComma as hne hc
   have hp : pack (parseOpts (joinComma as)) = as.map repack := by rw [pack_parseOpts, hs]
   have hn : (parseOpts (joinComma as)).any (fun p => p.1 == cmdEnv.templateName)
       = as.any (fun a => optName a == cmdEnv.templateName) := by rw [parseOpts_names, hs]
-  unfold cmdline
-  simp only [hp, probe_repack]
-  unfold checkOptions appended
-  simp only [hp, probe_repack, hn]
+  have hh : handle env (as.map repack) = handle env as := handleFrom_repack env _ as
+  have hE : cmdEnv.probeErrReturned = true := rfl
   have key : ∀ (c : Cfg) (bs : List Bytes), handleFrom env c (as.map repack ++ bs) = handleFrom env c (as ++ bs) := by
     intro c bs
     simp only [handleFrom, run_append, run_repack]
-  by_cases h1 : feat (probe env as) cmdEnv.iNested = true
-  · by_cases h2 : (as.any fun a => optName a == cmdEnv.templateName) = true
-    · simp only [h1, h2, if_true, Bool.not_true, Bool.and_false, Bool.false_eq_true, if_false, List.append_nil, hp]
+  unfold cmdline checkOptions appended
+  simp only [hp, probe_repack, hn, hh, hE, Bool.true_and]
+  by_cases h0 : (handle env as).isNone = true
+  · simp [h0]
+  · have h0' : (handle env as).isNone = false := by
+      cases hx : (handle env as).isNone with
+      | true => exact absurd hx h0
+      | false => rfl
+    simp only [h0', Bool.false_eq_true, if_false]
+    by_cases h1 : feat (probe env as) cmdEnv.iNested = true
+    · by_cases h2 : (as.any fun a => optName a == cmdEnv.templateName) = true
+      · simp only [h1, h2, if_true, Bool.not_true, Bool.and_false, Bool.false_eq_true, if_false, List.append_nil, hp]
+        exact handleFrom_repack env _ as
+      · have h2' : (as.any fun a => optName a == cmdEnv.templateName) = false := by simpa using h2
+        simp only [h1, h2', if_true, Bool.false_eq_true, if_false, Bool.not_false, Bool.and_true]
+        have : pack (parseOpts (joinComma as) ++ [(cmdEnv.templateName, env.slimName)]) = as.map repack ++ [slimOpt] := by
+          simp [pack, slimOpt] at hp ⊢
+          exact hp
+        rw [this]
+        exact key _ _
+    · have h1' : feat (probe env as) cmdEnv.iNested = false := by simpa using h1
+      simp only [h1', Bool.false_eq_true, if_false, Bool.false_and, List.append_nil, hp]
       exact handleFrom_repack env _ as
-    · have h2' : (as.any fun a => optName a == cmdEnv.templateName) = false := by simpa using h2
-      simp only [h1, h2', if_true, Bool.false_eq_true, if_false, Bool.not_false, Bool.and_true]
-      have : pack (parseOpts (joinComma as) ++ [(cmdEnv.templateName, env.slimName)]) = as.map repack ++ [slimOpt] := by
-        simp [pack, slimOpt] at hp ⊢
-        exact hp
-      rw [this]
-      exact key _ _
-  · have h1' : feat (probe env as) cmdEnv.iNested = false := by simpa using h1
-    simp only [h1', Bool.false_eq_true, if_false, Bool.false_and, List.append_nil, hp]
-    exact handleFrom_repack env _ as
 
 /-- **sets exactly its own, through the command line**: feature `i` of the accepted configuration holds the last
 setting the written list (plus the appended `template=slim`, which sets no feature) gives for it, else its default;
@@ -143,7 +151,9 @@ theorem cmdline_sets_exactly_own (as : List Bytes) (hne : as ≠ []) (hc : ∀ a
       if c.template = env.slimName ∧ i = env.iDeepEqual then false
       else (lastSetting env i (as ++ appended as)).getD (env.defaults.getD i false) := by
   rw [cmdline_transparent as hne hc] at h
-  exact handleFrom_feat env _ rfl _ c h i hi
+  split at h
+  · simp at h
+  · exact handleFrom_feat env _ rfl _ c h i hi
 
 /-- nothing is appended unless the list itself switches nested structs on (`enable_nested_struct=false` included) -/
 theorem cmdline_adds_nothing_unless_nested (as : List Bytes) (h : feat (probe env as) cmdEnv.iNested = false) :
@@ -173,6 +183,8 @@ theorem nested_forces_slim (as : List Bytes) (hne : as ≠ []) (hc : ∀ a ∈ a
   rw [cmdline_transparent as hne hc] at h
   have happ : appended as = [slimOpt] := by simp [appended, hnest, hnt]
   rw [happ] at h
+  split at h
+  · simp at h
   unfold handleFrom at h
   rw [run_append] at h
   cases hr : run env { init env with styleFlags := (probe env as).styleFlags } as with
